@@ -123,6 +123,14 @@ class EvalMixin(CallMixin):
                 # NAME = RepoClass(...) / repo_function(...) at module level: built once, shared by everything that names it
                 cq = repo.resolve_expr(cm, ce.func)
                 r2 = repo.lookup(cq) if cq else None
+                if r2 is None and cq and "." in cq and cq.split(".")[0] not in ("cascade", "earthkit") and not ce.keywords:
+                    # NAME = external.Constructor(<literals>) (struct.Struct(">q"), re.compile("..")): a stable, pure term that shows its arguments
+                    try:
+                        lit = [ast.literal_eval(a_) for a_ in ce.args]
+                    except Exception:
+                        lit = None
+                    if lit is not None:
+                        return App(cq, lit, fname=cq)
                 if r2 is not None and r2[0] in ("class", "func") and not (r2[0] == "class" and repo.is_enum(r2[1].qual)):
                     from .interp import Frame, _Signal
                     from .repo import FuncInfo
@@ -536,6 +544,10 @@ class EvalMixin(CallMixin):
     def contains(self, container, item, node, fr) -> bool:
         if isinstance(container, AnyKeyDict):
             return container.present
+        if isinstance(container, Obj) and container.cls in self.repo.classes and container.fields:
+            m = self.repo.find_method(container.cls, "__contains__")
+            if m is not None:  # a user-defined container: its own membership test decides
+                return self.truth(self.call_function(m, [item], {}, node, fr, self_value=container), node, fr)
         if isinstance(container, (dict, set, frozenset, list, tuple)):
             if isinstance(item, Term):
                 if any(isinstance(x, Term) and x == item for x in container):
